@@ -179,9 +179,8 @@ def _param_guard(func, node):
     it is truthy; else None."""
     cfg = cfg_of(func)
     nid = cfg.node_of(node).id
-    for t, lab in cfg.strict_guards(nid):
-        e = cfg.nodes[t].expr
-        if isinstance(e, ast.Name) and e.id in func.params and lab is True:
+    for e, tx, truth in cfg.facts(nid):
+        if isinstance(e, ast.Name) and e.id in func.params and truth is True:
             d = _param_default(func, e.id)
             if isinstance(d, ast.Constant) and d.value in (False, None):
                 return e.id
@@ -507,15 +506,13 @@ def nondet_sources(func):
                 cfg = cfg or cfg_of(func)
                 ok = False
                 if cfg.has(n):
-                    for t, lab in cfg.strict_guards(cfg.node_of(n).id):
-                        e = cfg.nodes[t].expr
-                        if isinstance(e, ast.Compare) and len(e.ops) == 1 and \
+                    for e, tx, truth in cfg.facts(cfg.node_of(n).id):
+                        if truth is True and isinstance(e, ast.Compare) and \
+                                isinstance(e.ops[0], ast.Is) and \
                                 isinstance(e.comparators[0], ast.Constant) and \
                                 e.comparators[0].value is None and \
                                 isinstance(e.left, ast.Name) and 'rng' in e.left.id:
-                            if (isinstance(e.ops[0], ast.Is) and lab is True) or \
-                                    (isinstance(e.ops[0], ast.IsNot) and lab is False):
-                                ok = True
+                            ok = True
                 out.append((n, 'unseeded-generator', ok,
                             'fresh unseeded generator only when the caller passed rng=None'
                             if ok else 'fresh unseeded generator created unconditionally: '
